@@ -11,6 +11,15 @@ package swagen30
 // Placeholders: the three emitters change the document (any heap) but cause no event.
 //@ func GenerateSecuritySpec trusted havocs
 //@ func GenerateModelsSpec trusted havocs
+
+// InterfaceToSchemaRef: assumed (kin-openapi constructors, recursion over type names). A reference to a component
+// that has not been generated yet has no Value; every other result owns a fresh Value.
+//@ func InterfaceToSchemaRef trusted
+//@ modifies any(SchemaRefMap), any(elems(schemaRefMap))
+//@ ensures result != nil && implies(result.Ref == "", result.Value != nil)
+
+//@ func generateStructSpec props C07,C14 havocs
+//@ requires openapi != nil && openapi.Components != nil && openapi.Components.Schemas != nil
 //@ func GenerateControllersSpec trusted havocs
 
 //@ func GenerateSpec props C08,C14 havocs
